@@ -256,3 +256,12 @@ fn test_pow_biguint() {
 
     assert_eq!(BigUint::from(125u8), base.pow(exponent));
 }
+
+#[cfg(num_bigint_verif)]
+pub mod verif {
+    //! Verification-only wrappers around private functions.
+    use super::BigUint;
+    pub fn plain_modpow(base: &BigUint, exp_data: &[u64], modulus: &BigUint) -> BigUint {
+        super::plain_modpow(base, exp_data, modulus)
+    }
+}
